@@ -66,6 +66,17 @@ PLAN = {
         "assumptions": ASSUME_X + ["code-point tables are encoding_rs's: the reference is encoding_rs whole-buffer decoding in the projection", "which source was used is observed through the decoded string (bodies are chosen to decode differently under the candidate charsets)"],
         "replay_runner": "charset", "replay_trace": "Trace_Charset",
     },
+    "C07": {
+        "mc": [],
+        "families": [{"gen": ("tlc", {"name": "write-sequences", "tla": "RequestWrite.tla", "cfg": "RequestWrite.cfg", "workers": 8}),
+                      "runner": "loop", "trace": "Trace_SendLoop"},
+                     fam("c07_req", runner="loop", trace="Trace_SendLoop"),
+                     {"gen": ("tlc", {"name": "hop-chains", "tla": "MC_Hops.tla", "cfg": "MC_Hops.cfg", "workers": 8}),
+                      "runner": "loop", "trace": "Trace_SendLoop"}],
+        "rule": "RequestWrite.tla (BufWriter/ChunkedWriter model) checked by TLC for all sequences of up to 4 write calls with sizes {0,1,8191,8192,8193}, each sequence replayed through a user-defined Body (chunked and known-length); seeded random requests over methods (incl. extension tokens), paths with unicode/percent/space, param(s) with &=#+% and non-ASCII, header names/values over their alphabets, set and append, basic/bearer credentials, all body kinds and sizes around 8 KiB; body kinds through redirect chains",
+        "assumptions": ASSUME_X + ["the bytes the client wrote are decoded by httparse plus a hand-written strict chunked decoder and multipart splitter (independent parsers) inside the projection"],
+        "replay_runner": "loop", "replay_trace": "Trace_SendLoop",
+    },
     "C08": {
         "mc": [],
         "families": [{"gen": ("tlc", {"name": "target-matrix", "tla": "MC_Target.tla", "cfg": "MC_Target.cfg", "workers": 8}),
